@@ -31,15 +31,24 @@ class SizeV(enum.Enum):
 # serialization_by_value=True (the model keys "by value" on the enum class, see Ser/Serialize.v)
 G.ENUMS.setdefault("ColorV", ColorV)
 G.ENUMS.setdefault("SizeV", SizeV)
-BY_VALUE = ("ColorV", "SizeV")
+BY_VALUE = ["ColorV", "SizeV"]      # a list: a check may register further by-value enum classes (register_enum)
 
 IMPORTS = G.IMPORTS + "from harness.sergen import ColorV, SizeV\n"
 
 
+def register_enum(cls, by_value):
+    """Adds an enum class to the vocabulary (fieldgen.ENUMS); by_value: fields over it are declared with
+    serialization_by_value=True.  The caller's class environment must import the class (SerContext.imports)."""
+    G.ENUMS.setdefault(cls.__name__, cls)
+    if by_value and cls.__name__ not in BY_VALUE:
+        BY_VALUE.append(cls.__name__)
+
+
 def fix_src(src):
     """Python source of a declaration: add serialization_by_value=True for the by-value enum classes."""
-    src = re.sub(r"Enum\(values=(ColorV|SizeV)\)", r"Enum(values=\1, serialization_by_value=True)", src)
-    src = re.sub(r"Enum\(values=\[((?:ColorV|SizeV)\.[^\]]*)\]\)", r"Enum(values=[\1], serialization_by_value=True)", src)
+    alt = "|".join(re.escape(n) for n in BY_VALUE)
+    src = re.sub(r"Enum\(values=(%s)\)" % alt, r"Enum(values=\1, serialization_by_value=True)", src)
+    src = re.sub(r"Enum\(values=\[((?:%s)\.[^\]]*)\]\)" % alt, r"Enum(values=[\1], serialization_by_value=True)", src)
     return src
 
 
@@ -191,11 +200,11 @@ def gen_sfield(rnd, depth=0, classes=(), max_depth=2, hashable=False):
 FIELD_NAMES = ["a", "b", "c", "d", "e1"]
 
 
-def gen_sclass(rnd, name, classes=(), wrapper=False, max_depth=2):
+def gen_sclass(rnd, name, classes=(), wrapper=False, max_depth=2, field_gen=None):
     n = 1 if wrapper else rnd.randint(1, 4)
     fields = []
     for fname in FIELD_NAMES[:n]:
-        fd = {"name": fname, "field": gen_sfield(rnd, 0, classes, max_depth)}
+        fd = {"name": fname, "field": (field_gen or gen_sfield)(rnd, 0, classes, max_depth)}
         fields.append(fd)
     names = [fd["name"] for fd in fields]
     c = {"name": name, "fields": fields}
@@ -214,10 +223,12 @@ def gen_sclass(rnd, name, classes=(), wrapper=False, max_depth=2):
 class SerContext(S.Context):
     """Class environment made of generated fragment classes only."""
 
+    imports = None      # a subclass may extend the import block (more enum classes, more field classes)
+
     def __init__(self, asts):
         self.asts = list(asts)
         self.ns = {}
-        exec(IMPORTS, self.ns)
+        exec(self.imports or IMPORTS, self.ns)
         self.classes = {}
         self.instances = {}
         for c in self.asts:
@@ -266,12 +277,20 @@ def falsy_for(f):
         return [("dict", [])]
     if t == "enumlit":
         return [v for v in f["values"] if v in (("int", 0), ("str", ""), ("bool", False))]
+    if t == "enumcls":
+        cls = G.ENUMS[f["cls"]]
+        return [E.reify(cls[m]) for m in f["members"] if not cls[m].value]     # members whose VALUE is falsy
+    if t in G.EXT and "falsy" in G.EXT[t]:
+        return G.EXT[t]["falsy"](f)
     if t == "anyof":
         out = []
         for g in f["fs"]:
             out += falsy_for(g)
         return out
     return []
+
+
+EXTRA_INJECT = False     # also inject inside Set items and homogeneous Tuple items (switched on by the C05 check)
 
 
 def inject_falsy(rnd, f, v, p=0.35):
@@ -287,6 +306,12 @@ def inject_falsy(rnd, f, v, p=0.35):
         return (v[0], [inject_falsy(rnd, f["items"][i], x, p) if i < len(f["items"]) else x for i, x in enumerate(v[1])])
     if t == "mapkv" and v[0] == "dict":
         return G.mk_dict([(inject_falsy(rnd, f["kf"], k, p), inject_falsy(rnd, f["vf"], x, p)) for k, x in v[1]])
+    if not EXTRA_INJECT:
+        return v
+    if t == "set" and f.get("item") and v[0] == "set" and falsy_for(f["item"]):
+        return G.mk_set(v[1], [inject_falsy(rnd, f["item"], x, p) for x in v[2]])
+    if t == "tuple" and v[0] == "tuple" and len(f["items"]) == 1 and falsy_for(f["items"][0]):
+        return (v[0], [inject_falsy(rnd, f["items"][0], x, p) for x in v[1]])
     return v
 
 
@@ -324,9 +349,9 @@ def gen_instance(rnd, c, ctx, tries=10):
     return None
 
 
-def build_world(rnd, n_classes, max_depth=2, prefix="K"):
+def build_world(rnd, n_classes, max_depth=2, prefix="K", field_gen=None, ctx_cls=None, per_class=6):
     """Classes in layers (later ones may refer to earlier ones) with a pool of valid instances each."""
-    ctx = SerContext([])
+    ctx = (ctx_cls or SerContext)([])
     pools = {}
     i = 0
     guard = 0
@@ -335,14 +360,15 @@ def build_world(rnd, n_classes, max_depth=2, prefix="K"):
         name = "%s%d" % (prefix, i)
         avail = [n for n in ctx.class_names() if ctx.instances.get(n)]
         wrapper = rnd.random() < 0.18
-        c = gen_sclass(rnd, name, classes=avail if rnd.random() < 0.7 else (), wrapper=wrapper, max_depth=max_depth)
+        c = gen_sclass(rnd, name, classes=avail if rnd.random() < 0.7 else (), wrapper=wrapper, max_depth=max_depth,
+                       field_gen=field_gen)
         try:
             ctx.add(c)
         except Exception:  # noqa   declaration rejected by typedpy
             ctx.ns.pop(name, None)
             continue
         insts = []
-        for _ in range(6):
+        for _ in range(per_class):
             r = gen_instance(rnd, c, ctx)
             if r is not None:
                 insts.append(r)
